@@ -14,7 +14,8 @@ import coqterm as ct
 import ctmulti as cm
 import proxycfg as pc
 from fgutils.parse import Parser
-from fgutils.proxy import Proxy, MolProxy, ReactionProxy, ProxyGroup, ProxyGraph, build_graphs, build_group_tree
+from fgutils.proxy import (Proxy, MolProxy, ReactionProxy, ProxyGroup, ProxyGraph, GraphSampler, build_graphs,
+                           build_group_tree)
 
 ID = "C14"
 REPEAT_PROBE = True   # engine: repeat 1 call in 5 after editing its first result in place (purity / no shared state)
@@ -52,6 +53,13 @@ RULE = ("random acyclic group DAGs: 1-5 groups on levels 1-4, a group references
         "graphs) and a proxy over the SAME group objects is built again (same arguments / another core / through the "
         "`proxy.groups` setter with a ProxyGroup | list | dict) and enumerated: this second enumeration is compared with "
         "the model and the checkers for the NEW configuration. "
+        "30% of the cases that are not re-configured / dict-built / alternately driven get CUSTOM NON-RESTRICTING SAMPLERS "
+        "(they return every graph they are given) on a random non-empty subset of the groups, in every form the API accepts: "
+        "plain function f(graphs), function f(graphs, group_name=None), lambda of both signatures, object with __call__ of "
+        "both signatures, a GraphSampler(unique=False) instance, and (groups with one graph) a sampler returning the single "
+        "ProxyGraph instead of a list; both signatures are mixed within one configuration and one process; the enumeration "
+        "must equal the model's for the same configuration with default samplers, and every sampler that declares group_name "
+        "must have been called with its group's name; the core keeps the unique default sampler. "
         "30% of the cases without history/parser are BUILT FROM DICTS: an equivalent JSON-style configuration (group as "
         "string / list of strings and dicts / {graphs: str | dict | list}, {pattern, anchor} dicts with extra property "
         "keys and 'name', core as string or list, enable_aam present or not) goes through Proxy.from_dict / "
@@ -72,9 +80,9 @@ ASSUMPTIONS = ["parser.parse(pattern, idx_offset=m) is parser.parse(pattern) wit
                "numbering from the offset is proved for the parser model in C01)",
                "samplers: groups use the default GraphSampler(unique=False), the core group GraphSampler(unique=True) "
                "over pairwise distinct ProxyGraph OBJECTS (equal contents allowed and generated: each object counts); "
-               "custom samplers and ProxyGroup(..., unique=True) groups (restricting samplers) are outside the model and "
-               "are not generated, also not in the re-configuration histories (the translator and the harness fail closed "
-               "on them)",
+               "RESTRICTING samplers (custom ones that drop graphs, ProxyGroup(..., unique=True) groups) are outside the model "
+               "and are not generated (the translator fails closed on any non-default sampler; the harness accepts only the "
+               "non-restricting custom samplers it installs itself, whose enumeration must be the default one)",
                "explicit parsers: Parser(use_multigraph=True, init_aam=..) is covered by the model (the final aam overwrite "
                "makes parse-time map numbers irrelevant) except init_aam=True with enable_aam=False, where the parse-time "
                "numbers stay on the nodes: there, and for Parser(use_multigraph=False) (simple-graph path: no nx.Graph "
@@ -330,6 +338,32 @@ def decorate(rng, c, limit):
         make_reconf(rng, c, limit)
     if not c.get("drive") and c.get("parser") is None and not c.get("reconf") and rng.random() < 0.3:
         make_dict(rng, c)
+    if not c.get("reconf") and not c.get("dict") and not (c.get("drive") and c["drive"][0] == "alt") \
+            and c["cfg"]["groups"] and rng.random() < 0.3:
+        make_samplers(rng, c)
+    return c
+
+
+SAMPLER_FORMS = ["func", "func_kw", "lambda", "lambda_kw", "obj", "obj_kw", "graphsampler", "single", "single_kw"]
+
+
+def make_samplers(rng, c):
+    """Custom NON-RESTRICTING samplers (they return every graph they are given) on some of the groups, in every form
+    the API accepts; both call signatures (with and without the keyword group_name) are mixed within one
+    configuration. The core keeps its unique default sampler. The model is the one for the default samplers."""
+    groups = c["cfg"]["groups"]
+    keys = [k for k, _, _ in groups]
+    chosen = rng.sample(keys, rng.randint(1, len(keys)))
+    forms = {}
+    for k in chosen:
+        ng = [len(gl) for kk, _, gl in groups if kk == k][0]
+        pool = [f for f in SAMPLER_FORMS if not f.startswith("single") or ng == 1]
+        forms[k] = rng.choice(pool)
+    # make sure both signatures occur among plain functions when there is room for it
+    if len(chosen) >= 2:
+        forms[chosen[0]], forms[chosen[1]] = rng.choice([("func", "func_kw"), ("func_kw", "func"), ("lambda_kw", "func"),
+                                                        ("lambda", "func_kw")])
+    c["samplers"] = forms
     return c
 
 
@@ -545,6 +579,13 @@ def corpus():
         c = _mk(["C{test}"], [("test", ["NO"])])
         c["dict"] = {"conf": conf, "entry": "ReactionProxy.from_dict"}
         yield c
+    # custom non-restricting samplers in every accepted form, both signatures within one configuration
+    for forms in ({"a": "func", "b": "func_kw"}, {"a": "func_kw", "b": "func"}, {"a": "lambda_kw", "b": "lambda", "c": "obj"},
+                  {"a": "obj_kw", "b": "graphsampler", "c": "single"}, {"c": "single_kw", "a": "lambda"},
+                  {"b": "obj", "a": "obj_kw", "c": "func_kw"}):
+        c = _mk(["C{a}{b}", "N{b}{c}"], [("a", ["C", "O"]), ("b", ["N", "{c}S", ""]), ("c", [["CC", [1]]])], how="dict")
+        c["samplers"] = forms
+        yield c
     # explicit parsers: init_aam / use_multigraph, with and without enable_aam
     for ps in PARSERS:
         for aam, cls in ((True, "Proxy"), (False, "Proxy"), (False, "MolProxy")):
@@ -579,6 +620,8 @@ def _iterate(p, base_next):
         status = "IndexError"
     except KeyError as e:
         status = "KeyError"
+    except TypeError as e:
+        status = "TypeError"
     # "and then stops": the iterator stays exhausted
     stays = True
     for _ in range(2):
@@ -590,7 +633,8 @@ def _iterate(p, base_next):
     return graphs, status, stays
 
 
-EXC = ((RuntimeError, "RuntimeError"), (ValueError, "ValueError"), (IndexError, "IndexError"), (KeyError, "KeyError"))
+EXC = ((RuntimeError, "RuntimeError"), (ValueError, "ValueError"), (IndexError, "IndexError"), (KeyError, "KeyError"),
+       (TypeError, "TypeError"))
 
 
 def _status_of(e):
@@ -633,7 +677,7 @@ def _drive(p, drv):
             pass
         for x in p:            # like list(p), but what was yielded before an exception is kept
             items.append(x)
-    except (RuntimeError, ValueError, IndexError, KeyError) as e:
+    except (RuntimeError, ValueError, IndexError, KeyError, TypeError) as e:
         status = _status_of(e)
     return items, status, _stays(p)
 
@@ -710,6 +754,65 @@ def _reconfigured(c, cls):
     else:
         p2.groups = gobj
     return p2
+
+
+def _make_sampler(form, calls, key):
+    """A non-restricting sampler of the given form; every call is recorded as (key, declares group_name, value received)."""
+    if form == "func":
+        def plain_sampler(graphs):
+            calls.append((key, False, None))
+            return graphs
+        return plain_sampler
+    if form == "func_kw":
+        def named_sampler(graphs, group_name=None):
+            calls.append((key, True, group_name))
+            return graphs
+        return named_sampler
+    if form == "lambda":
+        return lambda graphs: (calls.append((key, False, None)), graphs)[1]
+    if form == "lambda_kw":
+        return lambda graphs, group_name=None: (calls.append((key, True, group_name)), graphs)[1]
+    if form == "obj":
+        class PlainSampler:
+            def __call__(self, graphs):
+                calls.append((key, False, None))
+                return list(graphs)
+        return PlainSampler()
+    if form == "obj_kw":
+        class NamedSampler:
+            def __call__(self, graphs, group_name=None):
+                calls.append((key, True, group_name))
+                return list(graphs)
+        return NamedSampler()
+    if form == "graphsampler":
+        return GraphSampler(unique=False)
+    if form == "single":
+        def single_sampler(graphs):
+            calls.append((key, False, None))
+            return graphs[0]          # one ProxyGraph instead of a list: sample_graphs wraps it
+        return single_sampler
+    if form == "single_kw":
+        def single_named_sampler(graphs, group_name=None):
+            calls.append((key, True, group_name))
+            return graphs[0]
+        return single_named_sampler
+    raise ValueError(form)
+
+
+def _with_samplers(c, cls, calls):
+    cfg = eff_cfg(c)
+    groups = {}
+    for key, name, graphs in cfg["groups"]:
+        pgs = [ProxyGraph(p, anchor=list(a)) for p, a in graphs]
+        if key in c["samplers"]:
+            groups[key] = ProxyGroup(name, pgs, sampler=_make_sampler(c["samplers"][key], calls, key))
+        else:
+            groups[key] = ProxyGroup(name, pgs)
+    core = ProxyGroup("__core__", [ProxyGraph(p, anchor=list(a)) for p, a in cfg["core"]], unique=True)
+    gl = list(groups.values()) if c["how"] in ("list", "plain") else groups
+    if cls is MolProxy:
+        return cls(core, gl, parser=pc.make_parser(c.get("parser")))
+    return cls(core, gl, enable_aam=cfg["aam"], parser=pc.make_parser(c.get("parser")))
 
 
 def repeat_ok(c):
@@ -790,6 +893,9 @@ def run_impl(c):
         p, graphs, status, stays, msgs = _alternate(cfg, cls, c.get("parser"))
     elif c.get("reconf"):
         p = _reconfigured(c, cls)
+    elif c.get("samplers"):
+        calls = []
+        p = _with_samplers(c, cls, calls)
     elif c.get("dict"):
         p = _from_dict(c, cls)
         if c["dict"]["entry"].endswith(".from_dict") and type(p) is not Proxy:
@@ -797,7 +903,7 @@ def run_impl(c):
     else:
         p = pc.build_proxy(cfg, cls=cls, how=c["how"], parser=c.get("parser"))
     try:
-        dumped = pc.dump_proxy(p, any_parser=c.get("parser") is not None)
+        dumped = pc.dump_proxy(p, any_parser=c.get("parser") is not None, custom_samplers=set(c.get("samplers") or ()))
         if dumped != cfg:
             msgs.append("the proxy object does not hold the configuration it was built from")
     except pc.Unexpected as e:
@@ -809,6 +915,12 @@ def run_impl(c):
         graphs, status, stays = _drive(p, drv)
     else:
         graphs, status, stays = _iterate(p, Proxy.get_next)
+    if c.get("samplers"):
+        names = {key: name for key, name, _ in cfg["groups"]}
+        wrong = [x for x in calls if x[1] and x[2] != names[x[0]]]
+        if wrong:
+            msgs.append("a sampler that declares group_name was called with group_name=%r for group %r (%d such calls)"
+                        % (wrong[0][2], names[wrong[0][0]], len(wrong)))
     return {"graphs": graphs, "status": status, "stays": stays, "n": len(graphs), "msgs": msgs}
 
 
@@ -874,6 +986,9 @@ def coq_case(c, out):
     else:
         cfgt = pc.cfg_term(cfg, mg=parser_mg(c))
     defs = {"cfg": cfgt, "out": graphs_term(out["graphs"])}
+    if out["status"] not in STATUS:
+        # an exception the model has no counterpart for (e.g. TypeError out of a sampler call): nothing agrees
+        return {"defs": defs, "checks": {"agree": "false", "spec": "false", "bonds": "true"}, "diag": []}
     agree = "gen_eqb (proxy_all $cfg) ($out, %s)" % STATUS[out["status"]]
     okb = "C14_full_okb"
     ps = c.get("parser")
@@ -908,7 +1023,8 @@ def describe(c):
     d = {"kind": c["kind"], "cfg": c["cfg"] if c["kind"] != "da" else "DielsAlderProxy(neg_sample=%s)" % c["neg"],
          "how": c["how"], "cls": c["cls"], "expected": c.get("expected"), "neg": c.get("neg"),
          "drive": c.get("drive"), "parser": c.get("parser"), "reconf": c.get("reconf"),
-         "dict": c.get("dict"), "tree": c.get("tree"), "expected_err": c.get("expected_err")}
+         "dict": c.get("dict"), "tree": c.get("tree"), "expected_err": c.get("expected_err"),
+         "samplers": c.get("samplers")}
     if c["kind"] == "da":
         d["neg"] = c["neg"]
         d["slice"] = c["slice"]
@@ -925,7 +1041,8 @@ def from_json(d):
            "groups": [[k, n, [[p, list(a)] for p, a in gl]] for k, n, gl in cfg["groups"]], "aam": cfg["aam"]}
     return {"kind": d["kind"], "cfg": cfg, "how": d["how"], "cls": d["cls"], "expected": d.get("expected"),
             "neg": d.get("neg"), "drive": d.get("drive"), "parser": d.get("parser"), "reconf": d.get("reconf"),
-            "dict": d.get("dict"), "tree": d.get("tree"), "expected_err": d.get("expected_err")}
+            "dict": d.get("dict"), "tree": d.get("tree"), "expected_err": d.get("expected_err"),
+            "samplers": d.get("samplers")}
 
 
 def describe_out(out):
@@ -943,7 +1060,8 @@ def key(c):
             tuple((k, n, tuple((p, tuple(a)) for p, a in gl)) for k, n, gl in cfg["groups"]), cfg["aam"],
             tuple(c.get("drive") or ()), tuple(c.get("parser") or ()),
             repr(c["reconf"]) if c.get("reconf") else None, repr(c["dict"]) if c.get("dict") else None,
-            repr(c["tree"]) if c.get("tree") else None, c["kind"] in ("tree", "dicterr"))
+            repr(c["tree"]) if c.get("tree") else None, c["kind"] in ("tree", "dicterr"),
+            repr(sorted(c["samplers"].items())) if c.get("samplers") else None)
 
 
 def _nested(cfg):
@@ -1001,6 +1119,12 @@ def classes(c, out):
             yield "history_splits_enumeration=yes"
     if c.get("parser") is not None:
         yield "parser=use_multigraph:%s,init_aam:%s" % tuple(c["parser"])
+    if c.get("samplers"):
+        for f in sorted(set(c["samplers"].values())):
+            yield "custom_sampler=%s" % f
+        kinds = set(f.endswith("_kw") for f in c["samplers"].values() if f != "graphsampler")
+        if len(kinds) == 2:
+            yield "custom_samplers_both_signatures=yes"
     if c.get("dict"):
         yield "built_from_dict=%s" % c["dict"]["entry"]
         for v in c["dict"]["conf"]["groups"].values():
